@@ -265,7 +265,7 @@ class C18(Check):
         ('float', (('float_assumption', 'r'), ('too_large', 'c'), ('keywords', 'cr'), ('calc_correspondence', 'cr'))),
         ('colour', (('colorfuncs', 'cr'), ('hashes', 'cr'))),
         ('strings', (('strings', 'cr'), ('urls', 'cr'), ('token_values', 'c'))),
-        ('lists', (('helpers', 'cr'), ('separators', 'cr'), ('pv_correspondence', 'cr'))),
+        ('lists', (('helpers', 'cr'), ('separators', 'cr'), ('out_append_direct', 'cr'), ('pv_correspondence', 'cr'))),
         ('order', (('order_and_separators', 'cr'),)),
     )
 
@@ -1207,6 +1207,44 @@ class C18(Check):
             else:
                 src += rng.choice(['', ' ', '  ']) + sp + rng.choice(['', ' ', ' /*c*/']) + nxt
         return src
+
+    OUT_ITEMS = [('CHAR', '/'), ('CHAR', '*'), ('CHAR', '='), ('CHAR', '~'), ('CHAR', '|'), ('CHAR', '^'), ('CHAR', '$'),
+                 ('CHAR', ','), ('CHAR', ')'), ('CHAR', '('), ('CHAR', '+'), ('CHAR', '>'), ('CHAR', '-'), ('CHAR', ']'),
+                 ('IDENT', 'a'), ('IDENT', '*x'), ('IDENT', 'a\\ '), ('IDENT', 'b '), ('OTHER', '*='), ('OTHER', '1px'),
+                 ('OTHER', '*'), ('OTHER', '/'), ('OTHER', '='), ('STRING', 's"t'), ('STRING', ''), ('URI', 'u v'), ('URI', 'w'),
+                 ('HASH', '#aabbcc'), ('HASH', '#abcdef'), ('FUNCTION', 'f('), ('S', ' '), ('IDENT', ''), ('OTHER', '\t')]
+
+    def out_append_direct(self, ctx, cu, rng):
+        """Out.append / Out.value themselves (serialize.py:188-323) against outAppend / outValue on short item
+        sequences, incl. the pairs of d39f9c4 that must not fuse (`/` `*…`, `*` `=`, `~` `=` …), escaped and raw blanks at
+        the end of an item, empty strings, S items — the paths of Out.append the value serializers go through"""
+        seqs = [[('CHAR', '/'), ('IDENT', '*x')], [('CHAR', '*'), ('CHAR', '=')], [('CHAR', '~'), ('CHAR', '=')],
+                [('CHAR', '|'), ('CHAR', '=')], [('CHAR', '^'), ('CHAR', '=')], [('CHAR', '$'), ('CHAR', '=')],
+                [('IDENT', 'a'), ('CHAR', '/'), ('OTHER', '*')], [('IDENT', 'a\\ '), ('IDENT', 'b')], [('IDENT', 'b '), ('IDENT', 'c')],
+                [('OTHER', '/'), ('OTHER', '*=')], [('CHAR', '/'), ('S', ' '), ('CHAR', '*')]]
+        for _ in range(ctx.n(3000, 40000)):
+            seqs.append([rng.choice(self.OUT_ITEMS) for _ in range(rng.randint(1, 5))])
+        prefsets = [DEFAULT, MINI, PrefSet(False, False, '', ' '), PrefSet(True, True, '  ', '')]
+        lines, cases = [], []
+        for items in seqs:
+            for ps in prefsets:
+                old = ps.apply(cu)
+                try:
+                    out = cu.serialize.Out(cu.ser)
+                    for t, v in items:
+                        out.append(v, 'X-OTHER' if t == 'OTHER' else t)
+                    txt = out.value()
+                finally:
+                    ps.restore(cu, old)
+                lines.append('outseq %s %s' % (ps.proto(), ' '.join('%s:%s' % (t, enc(v)) for t, v in items)))
+                cases.append((items, ps, txt))
+        out = ctx.driver(lines) if ctx.model_ok else []
+        for (items, ps, txt), m in zip(cases, out):
+            ctx.case(key=('outseq', repr(items), ps.key()), nontrivial=len(items) > 1, kind='outseq:%d' % len(items),
+                     sample={'items': repr(items), 'prefs': repr(ps), 'impl': txt})
+            if m != 'OK ' + enc(txt):
+                ctx.disagree('Out.append / Out.value', {'items': repr(items), 'prefs': repr(ps)}, txt,
+                             dec(m[3:]) if m.startswith('OK ') else m)
 
     def pv_correspondence(self, ctx, cu, rng):
         """PropertyValue.cssText vs fmtPV (do_css_PropertyValue, do_css_CSSFunction nested to any depth, Out.append with
